@@ -1,6 +1,27 @@
 import P2.Props.C15Gen
-open P2.Props.C15Gen
-#print axioms table_is_bitrev6
-#print axioms srcSmall_eq_bitrev
-#print axioms thresholds
-#print axioms chunkedMap_eq_bitrev_small
+import P2.Props.C15
+#print axioms P2.Props.C15Gen.table_is_bitrev6
+#print axioms P2.Props.C15Gen.srcSmall_eq_bitrev
+#print axioms P2.Props.C15Gen.thresholds
+#print axioms P2.Props.C15Gen.chunkedMap_eq_bitrev_small
+#print axioms P2.Props.C15.bitrev_lt
+#print axioms P2.Props.C15.bitrev_involutive
+#print axioms P2.Props.C15.bitrev_split
+#print axioms P2.Props.C15.srcLarge_eq_bitrev
+#print axioms P2.Props.C15.reverseIndexBits_eq_spec
+#print axioms P2.Props.C15.chunkedMap_eq_bitrev
+#print axioms P2.Props.C15.eval_eq_sum
+#print axioms P2.Props.C15.divideByLinear_spec
+#print axioms P2.Props.C15.divideByLinear_length
+#print axioms P2.Props.C15.divideByLinear_coeff
+#print axioms P2.Props.C15.ifft_of_dft
+#print axioms P2.Props.C15.dft_of_ifft
+#print axioms P2.Props.C15.ifftPost_dft
+#print axioms P2.Props.C15.dft_eq_sum
+#print axioms P2.Props.C15.ifft_as_stated_false
+#print axioms P2.Props.C15.round_invariant
+#print axioms P2.Props.C15.round_invariant_init
+#print axioms P2.Props.C15.fftClassic_eq_dft_of_table
+#print axioms P2.Props.C15.fftClassic_eq_dft
+#print axioms P2.Props.C15.fftClassic_eq_dft_rootTable
+#print axioms P2.Props.C15.fftClassic_eq_dft'
